@@ -194,21 +194,21 @@ func (svc *service) start() error {
 		}
 	}
 
+	// All three goroutines are accounted for before the first one starts: the
+	// processor may finish (and stop() may wait on wgStopped) before the other
+	// two have been started.
+	svc.wgStarted.Add(3)
+	svc.wgStopped.Add(3)
+
 	// Processor is responsible for reading messages out of the buffer and processing
 	// them accordingly.
-	svc.wgStarted.Add(1)
-	svc.wgStopped.Add(1)
 	go svc.processor()
 
 	// Receiver is responsible for reading from the connection and putting data into
 	// a buffer.
-	svc.wgStarted.Add(1)
-	svc.wgStopped.Add(1)
 	go svc.receiver()
 
 	// Sender is responsible for writing data in the buffer into the connection.
-	svc.wgStarted.Add(1)
-	svc.wgStopped.Add(1)
 	go svc.sender()
 
 	// Wait for all the goroutines to start before returning
